@@ -97,11 +97,19 @@ ArithInt(op, l, r) ==
          Norm(TInt(w), BitOp(op, l.v % 65536, r.v % 65536, 0), det, FALSE, tg)
     [] OTHER -> Unmod("int-binop")
 
+\* two fixed-point layouts combine in the one that contains the other (integer and fractional part both not
+\* shorter): the narrower operand is aligned on the binary point.  Layouts of which neither contains the other are
+\* rejected by the library (never judged).
+Contains(a, b) == a.i >= b.i /\ a.f >= b.f
+Joinable(a, b) == Contains(a, b) \/ Contains(b, a)
+JoinT(a, b) == IF Contains(a, b) THEN a ELSE b
+Rescale(x, T) == x.v * P2(T.f - x.t.f)          \* the scaled integer of x in layout T (T.f >= x.t.f)
 ArithFixed(op, l, r) ==
   LET tg == l.trig \cup r.trig IN
-  IF ~SameLayout(l.t, r.t) THEN Unmod("qfixed-mixed-layout")
-  ELSE CASE op = "Add" -> Norm(l.t, l.v + r.v, MinI(l.det, r.det), FALSE, tg)
-         [] op = "Sub" -> Norm(l.t, l.v - r.v, MinI(l.det, r.det), FALSE, tg)
+  IF ~Joinable(l.t, r.t) THEN Unmod("qfixed-layouts-not-nested")
+  ELSE LET T == JoinT(l.t, r.t) IN
+       CASE op = "Add" -> Norm(T, Rescale(l, T) + Rescale(r, T), MinI(l.det, r.det), FALSE, tg)
+         [] op = "Sub" -> Norm(T, Rescale(l, T) - Rescale(r, T), MinI(l.det, r.det), FALSE, tg)
          [] OTHER -> Unmod("fixed-binop")
 
 \* Python arithmetic on folded literals (closed sub-expressions)
@@ -176,8 +184,8 @@ CompareV(op, l, r) ==
   ELSE IF IsIntLike(l.t) /\ IsIntLike(r.t) THEN
        Ok(TBool, CmpHolds(op, l.v, r.v), det, l.lit /\ r.lit, tg)
   ELSE IF l.t.t = "fixed" /\ r.t.t = "fixed" THEN
-       IF SameLayout(l.t, r.t) THEN Ok(TBool, CmpHolds(op, l.v, r.v), det, FALSE, tg)
-       ELSE Unmod("qfixed-mixed-layout")
+       IF Joinable(l.t, r.t) THEN LET T == JoinT(l.t, r.t) IN Ok(TBool, CmpHolds(op, Rescale(l, T), Rescale(r, T)), det, FALSE, tg)
+       ELSE Unmod("qfixed-layouts-not-nested")
   ELSE Unmod("compare-operand-types")
 
 \* result of  body if test else orelse  given the three evaluated values
